@@ -82,10 +82,11 @@ def timeFieldName (timeAlias : Str) : Str := if timeAlias ≠ [] then timeAlias 
 /-! ## `ColumnNames`: the column list -/
 
 /-- `for _, arg := range f.Args[1:] { if ref, ok := arg.(*VarRef); ok { … &Field{Expr: ref} } }`. -/
-def tagColumns (args : List Expr) : List Field :=
-  (args.drop 1).filterMap fun
-    | .varRef v t => some { expr := .varRef v t }
-    | _ => none
+def refColumn : Expr → Option Field
+  | .varRef v t => some { expr := .varRef v t }
+  | _ => none
+
+def tagColumns (args : List Expr) : List Field := (args.drop 1).filterMap refColumn
 
 /-- The columns a field adds after itself: the tag arguments of `top` / `bottom` when the statement
 has no INTO target (and the call has more than one argument – the guard added by the fix). -/
